@@ -94,7 +94,7 @@ fn answer_query<Q: MakeCustomQuery>(
         }),
         QueryOp::Custom { tag } => match Q::custom(tag) {
             None => "SKIP".to_string(),
-            Some(c) => r(querier.query::<String>(&QueryRequest::Custom(c)), |s| s),
+            Some(c) => raw_answer(querier, &QueryRequest::<Q>::Custom(c)),
         },
         QueryOp::Delegation { who, val } => {
             let a = names.target(who, self_addr);
@@ -117,18 +117,21 @@ fn answer_query<Q: MakeCustomQuery>(
             Some(v) => v.address,
             None => "none".to_string(),
         }),
-        QueryOp::Ibc { tag } => r(
-            querier.query::<String>(&QueryRequest::Ibc(IbcQuery::Channel { channel_id: tag.clone(), port_id: None })),
-            |s| s,
-        ),
-        QueryOp::Stargate { tag } => r(
-            querier.query::<String>(&QueryRequest::Stargate { path: tag.clone(), data: Binary::default() }),
-            |s| s,
-        ),
-        QueryOp::Grpc { tag } => r(
-            querier.query::<String>(&QueryRequest::Grpc(GrpcQuery { path: tag.clone(), data: Binary::default() })),
-            |s| s,
-        ),
+        QueryOp::Ibc { tag } => raw_answer(querier, &QueryRequest::<Q>::Ibc(IbcQuery::Channel { channel_id: tag.clone(), port_id: None })),
+        QueryOp::Stargate { tag } => raw_answer(querier, &QueryRequest::<Q>::Stargate { path: tag.clone(), data: Binary::default() }),
+        QueryOp::Grpc { tag } => raw_answer(querier, &QueryRequest::<Q>::Grpc(GrpcQuery { path: tag.clone(), data: Binary::default() })),
+    }
+}
+
+/// Module queries are compared as raw bytes (the repo's accepting modules answer with empty data).
+fn raw_answer<Q: MakeCustomQuery>(querier: &QuerierWrapper<Q>, req: &QueryRequest<Q>) -> String {
+    let bin = match cosmwasm_std::to_json_vec(req) {
+        Ok(b) => b,
+        Err(_) => return "ERR".to_string(),
+    };
+    match querier.raw_query(&bin) {
+        cosmwasm_std::SystemResult::Ok(cosmwasm_std::ContractResult::Ok(b)) => hex(b.as_slice()),
+        _ => "ERR".to_string(),
     }
 }
 
